@@ -11,6 +11,8 @@ claimed={
    ref="DESIGN.md section 4 C18", technique="bounded symbolic execution of go/ssa with SMT (z3) discharge; counterexamples replayed natively"),
  "C19":dict(text="Bounded symbolic model checking of the real cbcmac code over an uninterpreted keyed permutation (UF-E): for every key and every message content of each length 0..3 blocks+1 (thorough: 5 blocks+1), block size 8/16 and tag size, each of the eight constructions is compared with a reference written from ISO/IEC 9797-1 / GB/T 15852.1; CMAC streaming is checked for every 3-way write split with interleaved Sum on fresh, Reset and previously used objects; injectivity of the final-block transformations is an SMT query using the permutation axioms. One known finding (CBCR0 shift instead of rotation, pinned by an existing test vector) is reported as KNOWN-FINDING.",
    ref="DESIGN.md section 4 C19", technique="bounded symbolic execution of go/ssa over an uninterpreted block cipher, SMT (z3 5.1, cvc5 cross-check) discharge; counterexamples replayed natively"),
+ "C03":dict(text="Bounded symbolic model checking of the real mode code over an uninterpreted block cipher (UF-E): generic XTS (IEEE and GB/T variants, single-block and concurrentBlocks batch paths, every byte length up to (2*batch+2) blocks+15 incl. ciphertext stealing, tweak carried across calls, in place / disjoint with canary bytes), ECB/BC/OFBNLF (block sizes 8 and 16, one call vs two calls vs textbook), HCTR (uhash layout, counter path incl. batches, encrypt/decrypt) against references written from IEEE 1619 / GB/T 17964; mul2Generic and hctrDouble are proved equal to their specifications for every input and then summarised. One known finding (HCTR tweak tail, pinned by an existing test vector) is reported as KNOWN-FINDING. Assembly kernels are outside.",
+   ref="DESIGN.md section 4 C03", technique="bounded symbolic execution of go/ssa over an uninterpreted block cipher, SMT (z3 5.1, cvc5 cross-check) discharge; counterexamples replayed natively"),
 }
 NA={
  "C20":"data-race freedom over all schedules needs a concurrent execution model (threads, happens-before, sync/atomic); the go/ssa symbolic executor is sequential by construction and no Go symbolic concurrency engine is available in the image (DESIGN.md section 4 C20)",
